@@ -51,7 +51,7 @@ pub fn draw_cpus(rng: &mut Rng, tier: Tier, rows: usize) -> Vec<Cpu> {
                 rows.div_ceil(2).max(1),
                 rows.div_ceil(3).max(1),
                 rng.range(2, 15),
-                *rng.pick(&[17, 31, 32, 33, 64]),
+                *rng.pick(&[17, 31, 32, 33, 64, 64, 128, 255, 1024]),
             ];
             let mut picks: Vec<usize> = around.to_vec();
             rng.shuffle(&mut picks);
